@@ -192,6 +192,15 @@ def rule_reject(rep, pdb):
         dim = F(P(0), "nx" if fixed == 1 else "ny")
         guarded = GE(P(1), dim) in effective_guards(pdb, fn)
         ok = ok and (guarded or not in_loop)
+        if guarded and not calls and direct:
+            # with the explicit entry guard the storage may be indexed directly: every such access must put the checked
+            # argument in its own flat position (node * ny + other / other * ny + node), the other component being a loop variable
+            from .common import index_requirements
+            ok = True
+            for n in direct:
+                reqs = index_requirements(pdb, ctx, n)
+                if ctx.term(n["base"]) == F(P(0), "vars"):
+                    ok = ok and len(reqs) == 2 and reqs[0 if fixed == 1 else 1][0] == P(1)
         rep.add(key, rule, ok, calls[0] if calls else fn["body"], "calls=%d direct-index=%d explicit entry guard=%s accessor only inside a loop=%s" % (len(calls), len(direct), guarded, in_loop))
 
 
